@@ -91,7 +91,8 @@ class Exec(HeapMixin, ExprMixin, CallMixin, StmtMixin):
         self.depth = 0
         self.spec_mode = False
         self.pruning = pruning
-        self.prune_ms = 150
+        self.prune_ms = 1500
+        self._quant_cache = {}
         self._wf_done = set()
         self._enum = {}
         self._expect = None
@@ -970,6 +971,10 @@ def _h_is_fresh(eng, x, old):
 
 
 def _h_same_elems(eng, a, b):
+    for x in (a, b):
+        if not (isinstance(x, VRef) and isinstance(x.typ, ty.TList)):
+            raise Unsupported(f'same_elems: {type(x).__name__} is not a list (the contract names a local the code no '
+                              f'longer has?)')
     j = z3.Int('sj')
     n = eng.llen(a)
     eqs = [z3.Select(x, j) == z3.Select(y, j) for x, y in zip(eng.lel_arrays(a), eng.lel_arrays(b))]
